@@ -179,7 +179,7 @@ inductive Out
   | ack (a : Ack)
   | report (ceid : Id) (rpts : List (Id × List Val))   -- S6F16 / S6F11 body (DATAID is the constant 1)
   | nothing                                             -- nothing is sent
-  | crashed                                             -- the sender thread died with an exception, nothing is sent
+  | sent (msgs : List (Id × List (Id × List Val))) (crashed : Bool)   -- the S6F11 bodies a trigger call sent, in order
 deriving DecidableEq, Repr
 
 def s6f15 (cfg : Cfg) (s : St) (c : Id) : Out :=
@@ -192,14 +192,24 @@ def s6f15 (cfg : Cfg) (s : St) (c : Id) : Out :=
     | _ => .report c []
   else .ack .abort
 
-/-- `trigger_collection_events([c])` for a Python `int`/`str` `c` -/
-def trigger (cfg : Cfg) (s : St) (c : Id) : Out :=
+/-- is the event linked and enabled (`ceid in links and links[ceid].enabled`) -/
+def reportable (s : St) (c : Id) : Bool :=
   match s.conf.links.lookup c with
-  | some (rs, true) =>
-    match buildReports cfg s rs with
-    | .ok rpts => .report c rpts
-    | .error _ => .crashed
-  | _ => .nothing
+  | some (_, true) => true
+  | _ => false
+
+/-- the sender thread of `trigger_collection_events(ceids)` (Python `int`/`str` ids): one S6F11 per linked and enabled CEID,
+in list order; the other CEIDs are skipped and the loop goes on.  Second component: the thread died with an exception
+(dangling link), what was sent before stays sent. -/
+def trigger (cfg : Cfg) (s : St) : List Id → List (Id × List (Id × List Val)) × Bool
+  | [] => ([], false)
+  | c :: cs =>
+    match s.conf.links.lookup c with
+    | some (rs, true) =>
+      match buildReports cfg s rs with
+      | .ok rpts => let r := trigger cfg s cs; ((c, rpts) :: r.1, r.2)
+      | .error _ => ([], true)
+    | _ => trigger cfg s cs
 
 /-! ## histories -/
 
@@ -208,7 +218,7 @@ inductive Op
   | s2f35 (data : List LinkReq)
   | s2f37 (ceed : Bool) (ceids : List Id)
   | s6f15 (ceid : Id)
-  | trigger (ceid : Id)
+  | trigger (ceids : List Id)
   | setSv (v : Id) (x : Val)
   | setDv (v : Id) (x : Val)
 deriving DecidableEq, Repr
@@ -218,7 +228,7 @@ def step (cfg : Cfg) (s : St) : Op → St × Out
   | .s2f35 d => let (s', a) := s2f35 cfg s d; (s', .ack a)
   | .s2f37 ceed cs => let (s', a) := s2f37 s ceed cs; (s', .ack a)
   | .s6f15 c => (s, s6f15 cfg s c)
-  | .trigger c => (s, trigger cfg s c)
+  | .trigger cs => let r := trigger cfg s cs; (s, .sent r.1 r.2)
   | .setSv v x => ({ s with svVals := s.svVals.set v x }, .nothing)
   | .setDv v x => ({ s with dvVals := s.dvVals.set v x }, .nothing)
 
